@@ -32,7 +32,7 @@ PROPS = {
         sub="c01", cfgs=FIVE, hard=True,
         rule=VALUE_RULE,
         exhaustive_over={
-            "quick": "SHORT(3) all sci exponents in [-345,310]; SHORT(4) on three exponent windows; SEAM x q in [-365,330]; EXTREME; BOUNDARY-LIGHT(f64): 2047 binades x ~190 patterns x 8 variants; BOUNDARY-DEEP(f64): named pairs + every 32nd binade, full V(H); THRESHOLDS(f64); HARD(q)",
+            "quick": "SHORT(3) all sci exponents in [-345,310]; SHORT(4) on three exponent windows; SEAM x q in [-365,330]; EXTREME; BOUNDARY-LIGHT(f64): 2047 binades x ~190 patterns x 8 variants; BOUNDARY-DEEP(f64): named pairs + every 32nd binade, full V(H); THRESHOLDS(f64); HARD(q); GAPS, LIMB-EDGE, RIPPLE, POW2-POS digit strings; every 4th input of >= 20 digits re-parsed through Filter / TakeWhile iterators",
             "thorough": "SHORT(5) all sci exponents; SEAM; EXTREME incl. 10^6-digit shapes; BOUNDARY-LIGHT(f64) with 1024 extra patterns; BOUNDARY-DEEP(f64) on every binade; THRESHOLDS(f64) with 10^5 compensation; HARD(q)",
         },
         assumptions=ASSUME_EXACT,
@@ -92,13 +92,13 @@ PROPS.update({
                          "thorough": "compensation up to 10^5, SHORT(4), complete f32 subnormal and top binades"},
         assumptions=ASSUME_EXACT),
     "C09": dict(
-        sub="c09", cfgs=FIVE, rule="value-sorted chains are generated (order re-asserted exactly by the harness) and parsed; bits of adjacent elements must be non-decreasing. No expected values. Non-trivial: more than 15 digits or |exponent| > 22.",
-        exhaustive_over={"quick": "(1) sorted SEAM significand list with 4 in-between truncated elements per step at every q in [-365,330]; (2) same digits across consecutive exponents; (3) runs of 4 consecutive floats x patterns x every binade: exact, midpoint - unit, midpoint - far digit, midpoint, midpoint + far digit, midpoint + unit (unit steps are integer steps for integer midpoints); (3b) rich runs around ~27 patterns per binade: for every float its exact / shortest / 9-or-17-digit renderings and for every midpoint its truncations to 15..20 digits and those plus one unit (the short inputs next to a boundary that the moderate stage decides alone), sorted by exact comparison; (4) far-digit chains d=0..9",
+        sub="c09", cfgs=FIVE, hard=True, rule="value-sorted chains are generated (order re-asserted exactly by the harness) and parsed; bits of adjacent elements must be non-decreasing. No expected values. Non-trivial: more than 15 digits or |exponent| > 22.",
+        exhaustive_over={"quick": "(1) sorted SEAM significand list with 4 in-between truncated elements per step at every q in [-365,330]; (2) same digits across consecutive exponents; (3) runs of 4 consecutive floats x patterns x every binade: exact, midpoint - unit, midpoint - far digit, midpoint, midpoint + far digit, midpoint + unit (unit steps are integer steps for integer midpoints); (3b) rich runs around ~27 patterns per binade: for every float its exact / shortest / 9-or-17-digit renderings and for every midpoint its truncations to 15..20 digits and those plus one unit (the short inputs next to a boundary that the moderate stage decides alone), sorted by exact comparison; (4) far-digit chains d=0..9; (5) chains through every structural digit string (GAPS, LIMB-EDGE, RIPPLE, POW2-POS); every element of more than 19 digits of (5), every third one elsewhere, re-parsed with the decimal point after 1/19/38 digits, at its positional place and at the end (equal values must give equal bits)",
                          "thorough": "512 extra patterns"},
         assumptions=["chain order is established by exact decimal comparison in the harness; a generator error is a machinery failure"]),
     "C10": dict(
-        sub="c10", cfgs=FIVE, rule="for every base value all spellings (every split position with compensating exponent, leading fraction zeros, 1..40 appended fraction zeros, integer zeros moved into the exponent) are parsed; all must give the bits of the first spelling. Metamorphic: no expected values.",
-        exhaustive_over={"quick": "bases: all <=3-digit strings at 60 exponents, SEAM significands at every 5th q (seed-rotated), truncated 39-digit bases, midpoints/exact values of the named pairs (up to 770 digits); splits complete",
+        sub="c10", cfgs=FIVE, hard=True, rule="for every base value all spellings (every split position with compensating exponent, leading fraction zeros, 1..40 appended fraction zeros, integer zeros moved into the exponent) are parsed; all must give the bits of the first spelling. Metamorphic: no expected values.",
+        exhaustive_over={"quick": "bases: all <=3-digit strings at 60 exponents, SEAM significands at every 5th q (seed-rotated), truncated 39-digit bases, midpoints/exact values of the named pairs (up to 770 digits); splits complete; every structural digit string (GAPS, LIMB-EDGE, RIPPLE, POW2-POS) and its upper neighbour as a base",
                          "thorough": "<=4-digit strings"},
         assumptions=["equality of the spelled values is re-asserted exactly by the harness"]),
     "C15": dict(
@@ -118,13 +118,13 @@ PROPS.update({
     "C12": dict(
         sub="c12", cfgs=["D", "C", "A", "CA"],
         rule="every big-integer operation is executed on every member of the LIMBS operand family and compared with schoolbook naturals; a result within the design capacity (BIGINT_LIMBS, read from the crate) must be returned by both back-ends for vectors built with the crate's constructors; beyond it the stack back-end must and the heap back-end may report failure, never a wrong value. Capacity is read from the crate. Preconditions as the property states them (non-zero factors, normalised operands for hi64/compare/overflow judgement).",
-        exhaustive_over={"quick": "LIMBS (~27k vectors: all <=3-limb vectors over 10 limb values, constant and one-hot vectors at lengths 4-6, 30-32, cap-2..cap) x {unary, small_add/mul x 10 scalars, small_add_from, shl_bits}; ~490-operand normalised sub-family squared x {compare, long_mul, large_mul, large_add_from x 5 offsets}; pow5 for every n in 0..=1200 x 3 operands; Bigint::pow(2|5|10, n); shl for every n in 0..=64*cap+1; shl_limbs up to cap+1",
+        exhaustive_over={"quick": "LIMBS (~27k vectors: all <=3-limb vectors over 10 limb values, constant and one-hot vectors at lengths 4-6, 30-32, cap-2..cap) x {unary, small_add/mul x 10 scalars, small_add_from, shl_bits}; ~490-operand normalised sub-family squared x {compare, long_mul, large_mul, large_add_from x 5 offsets}; pow5 for every n in 0..=1200 x 3 operands; Bigint::pow(2|5|10, n); shl for every n in 0..=64*cap+1; shl_limbs up to cap+1; QUOT: 448 operands X = ceil(T/5^k), k in {27,54,81,108,135,162,270}, T with zero / all-ones limbs, through pow, large_mul, long_mul, alone and below one more low limb",
                          "thorough": "sub-family of ~1900 operands squared (49 M operations), pow to 1800"},
         assumptions=["64-bit limbs (host)", "naturals in harness/core are correct (multiplication self-consistent with the decimal tests)"]),
     "C13": dict(
         sub="c13", cfgs=["D", "A"],
         rule="every operation history (constructor followed by d operations) is executed from scratch on a fresh real vector and compared step by step with a reference Vec (with the crate's capacity for the stack vector): contents, length <= capacity, failed push/extend/resize leave contents unchanged, eq/cmp against snapshots of earlier states agree with numeric comparison, is_normalized/hi64 agree. Histories are never merged.",
-        exhaustive_over={"quick": "9 constructors x all 35-letter (33 on the heap vector) histories of depth 4 (13.5 M) + 9 x 12-letter core histories of depth 6 (26.9 M); StackVec (D) and HeapVec (A)",
+        exhaustive_over={"quick": "9 constructors x all 35-letter (33 on the heap vector) histories of depth 4 (13.5 M) + 9 x 12-letter core histories of depth 6 (26.9 M); StackVec (D) and HeapVec (A); LADDER: every (k pushes, j pops, resize to r) with k in 0..=cap+1, j <= k, r in 0..=cap+1, two fill values, followed by a fixed 10-operation tail (266 k histories of up to 140 steps): every length is reached, left and jumped to",
                          "thorough": "depth 5 full (352 M) + depth 8 core (3.9 G)"},
         assumptions=["after a failed add_small/mul_small the contents are unspecified and the branch ends"]),
     "C14": dict(
